@@ -448,7 +448,8 @@ func c05Scenarios(tier string) []scenario {
 			scs = append(scs, scenario{Name: prm.name(), Cfg: cfg, Setup: c05RCSetup(prm)})
 		}
 	}
-	roles := []connCfg{{Client: false}, {Client: true}, {Client: false, Flate: true}, {Client: true, Flate: true}}
+	// Thr 1: every message is compressed, so the small harness messages go through the deflate path too
+	roles := []connCfg{{Client: false}, {Client: true}, {Client: false, Flate: true, Thr: 1}, {Client: true, Flate: true, Thr: 1}}
 	add := func(prm c05Params, quick, thorough explore.Config) {
 		name := prm.Name + "/" + prm.K.String()
 		scs = append(scs, scenario{Name: name, Cfg: tierCfg(tier, quick, thorough), Setup: c05Setup(prm)})
@@ -529,6 +530,28 @@ func c02Scenarios(tier string) []scenario {
 		for _, prm := range []c05Params{
 			{Prop: "C02", Name: "WP", K: k, Writers: [][]wop{{{Stream: true, Chunks: []int{5, 5}}}}, Pinger: true},
 			{Prop: "C02", Name: "WC-Close", K: k, Closer: "Close", Writers: [][]wop{{{Chunks: []int{10}}}, {{Stream: true, Text: true, Chunks: []int{5, 5}}}}},
+			{Prop: "C02", Name: "WC-cancel0", K: k, Closer: "cancel0", Writers: [][]wop{{{Stream: true, Chunks: []int{5, 5}}}, {{Text: true, Chunks: []int{10}}}}},
+		} {
+			scs = append(scs, scenario{Name: prm.Name + "/" + k.String(), Cfg: explore.Config{P: p, Horizon: 60e9}, Setup: c05Setup(prm)})
+		}
+	}
+	return scs
+}
+
+// c01Scenarios: round-trip fidelity (every message on the wire equals exactly
+// one written message, acknowledged writes are present) while other goroutines
+// use the connection: a streaming writer whose first chunk fills the write
+// buffer exactly up to the next frame header, against a pinger.
+func c01Scenarios(tier string) []scenario {
+	var scs []scenario
+	p := 1
+	if tier == "thorough" {
+		p = 2
+	}
+	for _, k := range []connCfg{{Client: true}, {Client: false}} {
+		for _, prm := range []c05Params{
+			{Prop: "C01", Name: "WP-4088", K: k, Writers: [][]wop{{{Stream: true, Chunks: []int{4088, 100}}}}, Pinger: true},
+			{Prop: "C01", Name: "WP-8182", K: k, Writers: [][]wop{{{Stream: true, Chunks: []int{4090, 4092, 50}}}}, Pinger: true},
 		} {
 			scs = append(scs, scenario{Name: prm.Name + "/" + k.String(), Cfg: explore.Config{P: p, Horizon: 60e9}, Setup: c05Setup(prm)})
 		}
@@ -537,6 +560,10 @@ func c02Scenarios(tier string) []scenario {
 }
 
 func init() {
+	fw.Register(fw.Part{Prop: "C01", Name: "s.conc",
+		Units:  func(tier string) []fw.Unit { return scenarioUnits(c01Scenarios(tier)) },
+		Replay: replayFn(c01Scenarios),
+	})
 	fw.Register(fw.Part{Prop: "C02", Name: "s.wire",
 		Units:  func(tier string) []fw.Unit { return scenarioUnits(c02Scenarios(tier)) },
 		Replay: replayFn(c02Scenarios),
